@@ -252,48 +252,72 @@ def qratio (P : GenParams) (o : Options) (q q3 : UInt32) : UInt8 :=
   if o.pureInt then UInt8.ofNat ((q.toNat * c.1 / q3.toNat) % c.2.1)
   else UInt8.ofNat (F32.ratio c.2.2.1 c.2.2.2 q.toNat q3.toNat)
 
+/-- The data-length gate at the top of `finalize_with_options`. -/
+def lengthGate (val : Validity) (o : Options) : Option GenError :=
+  if val.isErrOn o.conservative then
+    match val with
+    | .tooLarge => some .tooLarge
+    | _ => if o.allowSmall then none else some .tooSmall
+  else none
+
+/-- The three `select_nth_unstable` calls: `(q1, q2, q3)`. -/
+def selectQuartiles (buckets : List UInt32) (n : Nat) : UInt32 × UInt32 × UInt32 :=
+  let r2 := selectNth buckets (n / 2 - 1)
+  let r1 := selectNth r2.1 (n / 4 - 1)
+  let r3 := selectNth r2.2.2 (n / 4 - 1)
+  (r1.2.1, r2.2.1, r3.2.1)
+
+/-- The two data-distribution gates (three-quarter-empty first, then half-empty). -/
+def distributionGate (q3 : UInt32) (nonzero minNonzero : Nat) (o : Options) : Option GenError :=
+  if q3 = 0 ∧ o.allowQuarter = false then some .threeQuarterEmpty
+  else if nonzero < minNonzero ∧ o.allowHalf = false ∧ o.allowQuarter = false then some .halfEmpty
+  else none
+
+/-- `(q1, q2, q3) = (1, 1, 1)` when `q3 == 0` (forced output). -/
+def adjustQuartiles (q : UInt32 × UInt32 × UInt32) : UInt32 × UInt32 × UInt32 :=
+  if q.2.2 = 0 then (1, 1, 1) else q
+
+/-- Everything after the length gate and the length encoding. -/
+def finalizeCore (agg : List UInt32 → UInt32 → UInt32 → UInt32 → List UInt8)
+    (P : GenParams) (cfg : Cfg) (v : Variant) (s : GenState) (o : Options) (lvalue : Nat) :
+    Outcome GenError Hash :=
+  let vp := vparams P v
+  let buckets := bucketData v s
+  let nonzero := buckets.countP (· ≠ 0)
+  let q0 := selectQuartiles buckets v.buckets
+  match distributionGate q0.2.2 nonzero vp.minNonzero o with
+  | some e => .err e
+  | none =>
+    let q := adjustQuartiles q0
+    let q1r := qratio P o q.1 q.2.2
+    let q2r := qratio P o q.2.1 q.2.2
+    if cfg.debugAssertions ∧ ¬ (q.1 ≤ q.2.1 ∧ q.2.1 ≤ q.2.2) then
+      .panic "bucket_aggregation.rs: debug_assert!(q1 <= q2 <= q3)"
+    else
+      .ok { checksum := s.acc.1
+          , lvalue := UInt8.ofNat lvalue
+          , qratios := (q1r &&& (0x0f : UInt8)) ||| ((q2r &&& (0x0f : UInt8)) <<< (4 : UInt8))
+          , body := agg buckets q.1 q.2.1 q.2.2 }
+
+/-- The length handed to the validity check: `processed_len().unwrap_or(u32::MAX)`. -/
+def finLen (s : GenState) : Nat := (processedLen s).getD (2 ^ 32 - 1)
+
+/-- `FuzzyHashLengthEncoding::new(len).unwrap()` followed by the rest of the function. -/
+def encodeThen (r : Outcome Unit (Option Nat)) (k : Nat → Outcome GenError Hash) : Outcome GenError Hash :=
+  match r with
+  | .panic w => .panic w
+  | .ub w => .ub w
+  | .err _ => .panic "unreachable"
+  | .ok none => .panic "generate.rs: FuzzyHashLengthEncoding::new(len).unwrap() on None"
+  | .ok (some lvalue) => k lvalue
+
 /-- `finalize_with_options`, with the aggregation back end as a parameter. -/
 def genFinalizeWith (agg : List UInt32 → UInt32 → UInt32 → UInt32 → List UInt8)
     (P : GenParams) (cfg : Cfg) (v : Variant) (s : GenState) (o : Options) :
     Outcome GenError Hash :=
-  let vp := vparams P v
-  let len := (processedLen s).getD (2 ^ 32 - 1)
-  let val := validity P vp len
-  let lengthGate : Option GenError :=
-    if val.isErrOn o.conservative then
-      match val with
-      | .tooLarge => some .tooLarge
-      | _ => if ¬ o.allowSmall then some .tooSmall else none
-    else none
-  match lengthGate with
+  match lengthGate (validity P (vparams P v) (finLen s)) o with
   | some e => .err e
-  | none =>
-    match encodeLength P cfg len with
-    | .panic w => .panic w
-    | .ub w => .ub w
-    | .err _ => .panic "unreachable"
-    | .ok none => .panic "generate.rs: FuzzyHashLengthEncoding::new(len).unwrap() on None"
-    | .ok (some lvalue) =>
-      let buckets := bucketData v s
-      let n := v.buckets
-      let nonzero := buckets.countP (· ≠ 0)
-      let (l0, q2, l1) := selectNth buckets (n / 2 - 1)
-      let (_, q1, _) := selectNth l0 (n / 4 - 1)
-      let (_, q3, _) := selectNth l1 (n / 4 - 1)
-      if q3 = 0 ∧ ¬ o.allowQuarter then .err .threeQuarterEmpty
-      else
-        let (q1, q2, q3) := if q3 = 0 then ((1 : UInt32), (1 : UInt32), (1 : UInt32)) else (q1, q2, q3)
-        if nonzero < vp.minNonzero ∧ ¬ (o.allowHalf ∨ o.allowQuarter) then .err .halfEmpty
-        else
-          let q1r := qratio P o q1 q3
-          let q2r := qratio P o q2 q3
-          if cfg.debugAssertions ∧ ¬ (q1 ≤ q2 ∧ q2 ≤ q3) then
-            .panic "bucket_aggregation.rs: debug_assert!(q1 <= q2 <= q3)"
-          else
-            .ok { checksum := s.acc.1
-                , lvalue := UInt8.ofNat lvalue
-                , qratios := (q1r &&& (0x0f : UInt8)) ||| ((q2r &&& (0x0f : UInt8)) <<< (4 : UInt8))
-                , body := agg buckets q1 q2 q3 }
+  | none => encodeThen (encodeLength P cfg (finLen s)) (finalizeCore agg P cfg v s o)
 
 def genFinalize (P : GenParams) (cfg : Cfg) (v : Variant) (s : GenState) (o : Options) :
     Outcome GenError Hash :=
